@@ -62,6 +62,10 @@ struct Gen
     strs.push_back("");
     for(int i = 0; i < 11; ++i) strs.push_back(alpha[i]);
     for(int i = 0; i < 11; ++i) for(int j = 0; j < 11; ++j) strs.push_back(std::string(alpha[i]) + alpha[j]);
+    // every 7-bit byte on its own and between two letters: an escape table has one entry per character, a sample of them proves nothing
+    size_t sampled = strs.size();
+    for(int b = 1; b < 0x80; ++b) { strs.push_back(std::string(1, (char)b)); strs.push_back(std::string("x") + (char)b + "y"); }
+    (void)sampled;
     Variant n;
     atomsFull.push_back(n); atomsFull.push_back(Variant(true)); atomsFull.push_back(Variant(false));
     atomsFull.push_back(Variant(0)); atomsFull.push_back(Variant(-1)); atomsFull.push_back(Variant(INT_MIN)); atomsFull.push_back(Variant(INT_MAX));
